@@ -73,6 +73,9 @@ NEXT Next
 INVARIANT RegValid
 INVARIANT PassesApplied
 INVARIANT GlobalsBound
+INVARIANT MessagesProcessed
+INVARIANT SourceMapsFresh
+INVARIANT GeneratorCurrent
 INVARIANT PerFileFromDisk
 INVARIANT QuiescentConsistent
 PROPERTY FailKeepsRegistry
@@ -134,6 +137,10 @@ func modelChecks(ctx *core.Ctx) {
 		{"readd_after_read", "QuiescentConsistent"},
 		{"passes_skipped_on_recompile", "PassesApplied"},
 		{"globals_dropped_on_recompile", "QuiescentConsistent"},
+		{"messages_not_processed_on_recompile", "MessagesProcessed"},
+		{"datarefs_not_checked_on_recompile", "RegValid"},
+		{"source_maps_stale_after_swap", "SourceMapsFresh"},
+		{"generator_caches_per_file", "GeneratorCurrent"},
 	}
 	for _, d := range devs {
 		runs = append(runs, m1run{"M1-deviation-" + d.dev, cfg(2, `"`+d.dev+`"`, allMethods, 4, 2, false, false, safetyProps), 2, d.prop, false, "deviation"})
@@ -270,6 +277,8 @@ func exportSchedules(ctx *core.Ctx, length int) (map[string]*modelSched, error) 
 				Obs []string `json:"obs"`
 				P   []string `json:"p"`
 				G   string   `json:"g"`
+				MP  bool     `json:"mp"`
+				Src []string `json:"src"`
 			} `json:"h"`
 		}
 		if err := json.Unmarshal([]byte(p), &doc); err != nil {
@@ -282,7 +291,12 @@ func exportSchedules(ctx *core.Ctx, length int) (map[string]*modelSched, error) 
 			ws = append(ws, Write{e.F, e.V, e.M})
 			obs = append(obs, e.Obs)
 			sort.Strings(e.P)
-			obsx = append(obsx, strings.Join(e.P, "+")+"|"+e.G)
+			mp := "bad"
+			if e.MP {
+				mp = "ok"
+			}
+			// (a generator on the registry in use shows what the registry holds)
+			obsx = append(obsx, strings.Join(e.P, "+")+"|"+e.G+"|"+mp+"|"+strings.Join(e.Src, ",")+"|"+strings.Join(e.Obs, ","))
 		}
 		k := schedKey(ws)
 		ms := out[k]
@@ -554,27 +568,63 @@ func signature(it *item) (sig core.Sig, what string, drift bool) {
 			k--
 		}
 	}
+	if kind == "callback" && w.V == "bad" && w.F%2 == 0 && strings.Contains(fmt.Sprint(e["vers"]), "none") {
+		return core.Sig{Family: "watch-datarefs", Feature: "undeclared-variable-accepted-on-recompile"},
+			fmt.Sprintf("write %d (%+v) put a template that prints an undeclared variable on disk (Compile rejects it: CheckDataRefs); a recompile accepted it and handed the registry to the callback (versions %v)", widx+1, w, e["vers"]), false
+	}
 	if kind == "quiesce" || kind == "callback" {
-		full := strings.Join(PassTags, "+") + "|" + GlobalValue
-		got := fmt.Sprint(e["g"])
-		var ps []string
-		if xs, ok := e["p"].([]interface{}); ok {
-			for _, x := range xs {
-				ps = append(ps, fmt.Sprint(x))
+		strs := func(x interface{}) []string {
+			var out []string
+			if xs, ok := x.([]interface{}); ok {
+				for _, y := range xs {
+					out = append(out, fmt.Sprint(y))
+				}
 			}
+			return out
 		}
-		got = strings.Join(ps, "+") + "|" + got
 		where := "the registry in use at quiescence"
+		versKey := "r"
 		if kind == "callback" {
-			where = "the registry handed to the recompilation callback"
+			where, versKey = "the registry handed to the recompilation callback", "vers"
 		}
-		if got != full && got != "|none" {
-			if strings.Join(ps, "+") != strings.Join(PassTags, "+") {
-				return core.Sig{Family: "watch-parse-passes", Feature: "not-applied-on-recompile"},
-					fmt.Sprintf("%s (write %d, %+v) shows the parse-pass tags %v, registered are %v: a recompile did not run the passes registered with AddParsePass", where, widx+1, w, ps, PassTags), false
-			}
+		where = fmt.Sprintf("%s (write %d, %+v)", where, widx+1, w)
+		vers, ps, src, js := strs(e[versKey]), strs(e["p"]), strs(e["src"]), strs(e["js"])
+		rendered := false
+		for _, v := range vers {
+			rendered = rendered || v != "none"
+		}
+		notes := strings.Join(res.Notes, "; ")
+		switch {
+		case !rendered:
+		case strings.Join(ps, "+") != strings.Join(PassTags, "+"):
+			return core.Sig{Family: "watch-parse-passes", Feature: "not-applied-on-recompile"},
+				fmt.Sprintf("%s shows the parse-pass tags %v, registered are %v: a recompile did not run the passes registered with AddParsePass", where, ps, PassTags), false
+		case fmt.Sprint(e["g"]) != GlobalValue:
 			return core.Sig{Family: "watch-globals", Feature: "not-bound-on-recompile"},
-				fmt.Sprintf("%s (write %d, %+v) prints the global as %v, the bundle defines %q", where, widx+1, w, e["g"], GlobalValue), false
+				fmt.Sprintf("%s prints the global as %v, the bundle defines %q", where, e["g"], GlobalValue), false
+		case fmt.Sprint(e["m"]) != "ok":
+			return core.Sig{Family: "watch-messages", Feature: "not-processed-on-recompile"},
+				fmt.Sprintf("%s: its {msg} nodes do not have the id/placeholder names of a fresh compile of the same content, translations are not found (%s)", where, notes), false
+		case strings.Join(src, ",") != strings.Join(vers, ","):
+			feat := "failing-render-reports-wrong-line"
+			if strings.Contains(strings.Join(src, ","), "panic") {
+				feat = "failing-render-panics"
+			}
+			return core.Sig{Family: "watch-source-maps", Feature: feat},
+				fmt.Sprintf("%s holds versions %v, but a template that fails at run time reports the position of %v: the registry's source text is not the one its templates were parsed from (%s)", where, vers, src, notes), false
+		case kind == "callback" && strings.Join(strs(e["vissrc"]), ",") != strings.Join(strs(e["vis"]), ",") && !strings.Contains(strings.Join(strs(e["vis"]), ","), "none"):
+			feat := "failing-render-reports-wrong-line"
+			if strings.Contains(strings.Join(strs(e["vissrc"]), ","), "panic") {
+				feat = "failing-render-panics"
+			}
+			return core.Sig{Family: "watch-source-maps", Feature: feat},
+				fmt.Sprintf("while the callback of write %d ran, the registry in use held versions %v, but a template that fails at run time reported the position of %v (%s)", widx+1, e["vis"], e["vissrc"], notes), false
+		case kind == "callback" && fmt.Sprint(e["vism"]) != "ok" && !strings.Contains(strings.Join(strs(e["vis"]), ","), "none"):
+			return core.Sig{Family: "watch-messages", Feature: "not-processed-on-recompile"},
+				fmt.Sprintf("while the callback of write %d ran, the {msg} nodes of the registry in use did not have the ids of a fresh compile (%s)", widx+1, notes), false
+		case kind == "quiesce" && strings.Join(js, ",") != strings.Join(vers, ","):
+			return core.Sig{Family: "watch-soyjs-generator", Feature: "javascript-of-an-older-registry"},
+				fmt.Sprintf("%s holds versions %v, a soyjs.Generator created from it before the recompile returns the JavaScript of %v", where, vers, js), false
 		}
 	}
 	if hist == "moved-away" && (kind == "quiesce" || kind == "log") && !strings.Contains(fmt.Sprint(e["r"]), "none") {
@@ -706,7 +756,8 @@ func Run(ctx *core.Ctx) {
 		"a schedule is non-trivial if it has at least one write; distinct = distinct (files, schedule)"
 	ctx.Assumptions = []string{
 		"fsnotify/inotify are the environment: an in-place modification of a watched inode queues 1 Write event per system call (possibly coalesced with an identical unread one), unlink/rename-over queues Chmod+Remove and ends the watch, rename-away queues Rename; Write/Chmod events for a path that does not exist are dropped by fsnotify",
-		"every template prints one global and two parse passes append a tag to every template: passes applied / globals bound are read off the rendered output",
+		"every watched template prints its version, one global and a {msg} with a placeholder; two parse passes append a tag; a second template per file fails at run time: passes applied, globals bound, messages processed (ids of a fresh compile, translation found through a fake bundle) and fresh source maps (file/line of the failing command) are read off renders, the JavaScript of a long-lived soyjs.Generator is compared with that of fresh compiles",
+		"the bad version of an odd file is a syntax error, that of an even file an undeclared variable (CheckDataRefs)",
 		"file contents are abstracted to v1|v2|bad|empty|absent; an empty .soy file does not compile (measured: 'namespace required')",
 		"renders are made only at quiescence: the unsynchronised struct copy `*reg = *registry` is accepted by the code's own comment and is not judged",
 		"the inotify queue never overflows; watcher.Errors is never signalled",
